@@ -1,73 +1,22 @@
-import LLRP.Model.Header
-import LLRP.Gen.MsgTables
-import LLRP.Gen.Schema
+import LLRP.Oracle.Common
+import LLRP.Oracle.C19
 /-!
 `oracle`: line-protocol driver of the executable models (one request per line on stdin, one reply per line on
-stdout). Imports only `LLRP.Model.*` and `LLRP.Gen.*` (never Mathlib, never proofs) so that it links as a `lean_exe`.
-Unknown verbs answer `bad-op`; nothing is defaulted.
+stdout). Imports only `LLRP.Model.*`, `LLRP.Gen.*` and `LLRP.Oracle.*` (never Mathlib, never proofs) so that it
+links as a `lean_exe`. Unknown verbs answer `bad-op`; nothing is defaulted.
+To add a property: write `LLRP/Oracle/Cxx.lean` with `def handleCxx : Handler`, import it here, add it to `handlers`.
 -/
-open LLRP
+open LLRP LLRP.Oracle
 
-/-- hex argument with the mandatory `x` prefix (so that the empty byte string is a visible token) -/
-def unhexX (s : String) : Option Bytes :=
-  match s.toList with
-  | 'x' :: cs => unhexChars cs
-  | _ => none
-
-def natArgs (xs : List String) : Option (List Nat) := xs.mapM String.toNat?
-
-def optNat : Option Nat → String
-  | some n => s!"some {n}"
-  | none => "none"
+def handlers : List Handler := [
+  handleC19
+]
 
 def handle (line : String) : String :=
-  match (line.trimAscii.toString.splitOn " ").filter (· ≠ "") with
-  | ["hdr-dec", hex] =>
-    match unhexX hex with
-    | none => "bad-op"
-    | some b => match Header.unmarshal b with
-      | some h => s!"ok {h.version} {h.typ} {h.payloadLen} {h.id}"
-      | none => "err"
-  | ["hdr-enc", v, t, l, i] =>
-    match natArgs [v, t, l, i] with
-    | some [v, t, l, i] => match (Header.mk v t l i).marshal with
-      | some b => s!"ok x{hexOf b}"
-      | none => "err"
-    | _ => "bad-op"
-  | ["hdr-write", v, t, l, i] =>
-    match natArgs [v, t, l, i] with
-    | some [v, t, l, i] => s!"ok x{hexOf (writeHeader (Header.mk v t l i))}"
-    | _ => "bad-op"
-  | ["isvalid", t] =>
-    match t.toNat? with
-    | some t => toString (Gen.llrp_MessageType_IsValid t)
-    | none => "bad-op"
-  | ["converse", t] =>
-    match t.toNat? with
-    | some t => optNat (converse Gen.mirrorType t)
-    | none => "bad-op"
-  | ["spec-converse", t] =>
-    match t.toNat? with
-    | some t => optNat (lookup t (specPairs Gen.schema))
-    | none => "bad-op"
-  | ["newinstance", t] =>
-    match t.toNat? with
-    | some t => match lookup t Gen.newInstance with
-      | some n => match (Gen.typeMethods.find? (·.1 == n)) with
-        | some (_, ty) => s!"some {n} type={ty}"
-        | none => s!"some {n} type=?"
-      | none => "none"
-    | none => "bad-op"
-  | "check-converse" :: t :: rest =>
-    match t.toNat? with
-    | some t =>
-      let got := " ".intercalate rest
-      match lookup t (specPairs Gen.schema) with
-      | none => "accept"
-      | some want => if got == s!"some {want}" then "accept" else s!"reject want=some {want} got={got}"
-    | none => "bad-op"
-  | ["mirror-gaps"] => toString (mirrorGaps Gen.schema Gen.mirrorType)
-  | _ => "bad-op"
+  let args := (line.trimAscii.toString.splitOn " ").filter (· ≠ "")
+  match handlers.findSome? (fun h => h args) with
+  | some r => r
+  | none => "bad-op"
 
 partial def loop (hin hout : IO.FS.Stream) : IO Unit := do
   let line ← hin.getLine
